@@ -57,7 +57,7 @@ pub trait Prop: Sync + Send {
 }
 
 pub fn all() -> Vec<&'static dyn Prop> {
-    vec![&c01::C01]
+    vec![&c01::C01, &c02::C02, &c03::C03, &c09::C09, &c15::C15]
 }
 
 pub fn by_id(id: &str) -> Option<&'static dyn Prop> {
